@@ -1018,3 +1018,35 @@ Proof.
   - destruct (teardown_end_stamps _ _ _ _ _ _ _ Ek H0 Hr Hs Ha Hb) as (A & B & _). auto.
 Qed.
 
+
+(* ------------------------------------------------------------------ what the tasks are told *)
+(* C10: the argument map pushed to the tasks by a START_ACTIVITY that reaches RUNNING carries the
+   new run number, the new start stamp and the CLEARED end stamp (present, empty) - whatever the
+   variables held before; no completion stamp is pushed.  The key list is read from the source
+   (Gen_StartArgs): dropping run_end_time_ms from it breaks this lemma. *)
+Lemma start_push_fresh hooks orc b s s' t r d :
+  transition hooks orc START_ACTIVITY b s = (s', t, r) -> dst_of START_ACTIVITY (e_st s) = Some d ->
+  e_st s' <> e_st s ->
+  push_of START_ACTIVITY (e_rv s') =
+  Some (mkPush (Some (Some (N.succ (e_ctr s)))) (Some (SSet (e_clock s))) None (Some SEmpty) None).
+Proof.
+  intros H Hd Hs. pose proof (transition_post _ _ _ _ _ _ _ _ _ H Hd) as Hp.
+  assert (Hsrc : e_st s = CONFIGURED) by (destruct (e_st s); try discriminate; reflexivity).
+  inversion Hp as [E1 E2|E1 E2|E1 E2|Hz E1 E2|E1 E2]; try (exfalso; apply Hs; congruence).
+  rewrite Hsrc in E1. unfold proj in E1. cbn in E1.
+  destruct (e_rv s') as [rn var a b0 c0 d0]. inversion E1; subst. reflexivity.
+Qed.
+
+(* ... and a STOP_ACTIVITY that reaches CONFIGURED has pushed the end stamp of this run *)
+Lemma stop_push_end hooks orc b s s' t r d :
+  transition hooks orc STOP_ACTIVITY b s = (s', t, r) -> dst_of STOP_ACTIVITY (e_st s) = Some d ->
+  e_st s' <> e_st s -> rv_soeor (e_rv s) <> SAbsent ->
+  exists a, push_of STOP_ACTIVITY (e_rv s') = Some (mkPush None None None (Some (SSet a)) None).
+Proof.
+  intros H Hd Hs Ha. pose proof (transition_post _ _ _ _ _ _ _ _ _ H Hd) as Hp.
+  assert (Hsrc : e_st s = RUNNING) by (destruct (e_st s); try discriminate; reflexivity).
+  inversion Hp as [E1 E2|E1 E2|E1 E2|Hz E1 E2|E1 E2]; try (exfalso; apply Hs; congruence).
+  rewrite Hsrc in E1. unfold proj in E1. destruct (e_rv s) as [rn var a b0 c0 d0] eqn:Er. cbn in E1, Ha.
+  destruct c0 as [| |q]; [contradiction| |]; cbn in E1;
+    destruct (e_rv s') as [rn' var' a' b' c' d']; inversion E1; subst; eexists; reflexivity.
+Qed.
